@@ -53,6 +53,10 @@ class Spelling:
         self.encoding = encoding
         self.bom = bom
         self.decl = decl
+        # opt-in, only with strict: a Strict package is Strict THROUGHOUT - also where a namespace URI is written as an attribute
+        # VALUE (a:graphicData/@uri, Relationship/@Type; see VALUE_URI_ATTRS); keep_values = values left as they are
+        self.strict_values = False
+        self.keep_values = ()
 
     def uri(self, prefix):
         table = dict(STRICT if self.strict else TRANSITIONAL)
@@ -90,6 +94,27 @@ def _collect_prefixes(tree, acc):
 
 
 MCE_PREFIX_LISTS = ("Requires", "mc:Ignorable", "mc:MustUnderstand")
+
+# attributes whose VALUE is a namespace URI (or starts with one) that Word writes with the Strict URI in a Strict package:
+# the kind of graphic in a:graphicData, the relationship types of the .rels parts (content types are the same in both)
+VALUE_URI_ATTRS = {("a:graphicData", "uri"), ("relationships:Relationship", "Type")}
+
+
+def strict_value(v):
+    """'http://schemas.openxmlformats.org/drawingml/2006/picture' -> 'http://purl.oclc.org/ooxml/drawingml/picture',
+    '<transitional r>/image' -> 'http://purl.oclc.org/ooxml/officeDocument/relationships/image'; anything else unchanged"""
+    for p, t in sorted(TRANSITIONAL.items(), key=lambda kv: -len(kv[1])):
+        if v == t or v.startswith(t + "/"):
+            return STRICT[p] + v[len(t):]
+    for t, st in STRICT_MORE:
+        if v == t:
+            return st
+    return v
+
+
+# DrawingML graphic kinds without a prefix of their own in the library (charts, diagrams ...)
+STRICT_MORE = [("http://schemas.openxmlformats.org/drawingml/2006/" + k, "http://purl.oclc.org/ooxml/drawingml/" + k)
+               for k in ("chart", "diagram", "lockedCanvas", "table", "compatibility")]
 
 
 def _collect_mce_prefixes(tree, acc):
@@ -157,6 +182,8 @@ def xml_to_bytes(tree, sp=PLAIN):
                         t = written[t]
                 toks.append(t)
             return "".join(toks)
+        if sp.strict and sp.strict_values and (elem_name, k) in VALUE_URI_ATTRS and v not in sp.keep_values:
+            return strict_value(v)
         return v
 
     rng = sp.rng
@@ -260,7 +287,12 @@ def build_docx(parts, sp=PLAIN, order=None, compression=None, spellings=None):
             else:
                 data = bytes.fromhex(p["hex"])
             comp = zipfile.ZIP_DEFLATED if (compression == "deflate" or (compression == "mixed" and idx % 2 == 0)) else zipfile.ZIP_STORED
-            z.writestr(zipfile.ZipInfo(p["name"]), data, compress_type=comp)
+            level = None
+            if isinstance(compression, dict):
+                # per entry: {name | "*": "stored" | ["deflate", level]}
+                how = compression.get(p["name"], compression.get("*", "stored"))
+                comp, level = (zipfile.ZIP_STORED, None) if how == "stored" else (zipfile.ZIP_DEFLATED, how[1])
+            z.writestr(zipfile.ZipInfo(p["name"]), data, compress_type=comp, compresslevel=level)
     return buf.getvalue()
 
 
